@@ -61,22 +61,49 @@ def ordering_predicates(ctx):
     for fn in flow._shapes(ctx, S + "find"):
         if len(fn.params) < 2:
             continue
-        conds = [blk["cond"] for b, blk in fn.blocks.items() if "cond" in blk and "compare" in fn.expr(blk["cond"]) and b in fn.live_blocks()]
-        rets = [r for r in flow.find(fn, {"k": "return"}) if fn.kids(r) and "compare" in fn.expr(fn.kids(r)[0])]
+        def is_cmp_call(nid):
+            n_ = fn.nodes[nid]
+            return n_["k"] == "call" and n_.get("callee", "").endswith("operator()") and len(fn.kids(nid)) == 3 and "bool" == n_.get("t")
+        conds = []
+        for b, blk in fn.blocks.items():
+            if "cond" in blk and b in fn.live_blocks():
+                a_, p_ = flow.strip_cond(fn, blk["cond"])
+                if a_ is not None and a_ >= 0 and is_cmp_call(a_):
+                    conds.append(blk["cond"])
+        rets = []
+        for r in flow.find(fn, {"k": "return"}):
+            if fn.kids(r):
+                a_, p_ = flow.strip_cond(fn, fn.kids(r)[0])
+                if a_ is not None and a_ >= 0 and is_cmp_call(a_):
+                    rets.append(r)
         if not conds or not rets:
             ctx.broken.append("harris_michael_list_based_set::find: compare idiom not found")
             continue
+
+        def roles(call_nid):
+            k_ = fn.kids(call_nid)
+            names = []
+            for x in k_[1:3]:
+                xn = fn.nodes[x]
+                names.append((xn.get("name"), "node" if (flow.has_src(fn, x, "field:value") or flow.has_src(fn, x, "field:key")) else "probe"))
+            return names
         bad = None
         try:
             for ck in (0, 1, 2):
                 for k in (0, 1, 2):
-                    env = {"ckey": ck, "key": k, "call:operator()": lambda a, b: int(a < b)}
                     atom, pol = flow.strip_cond(fn, conds[0])
+                    env = {"call:operator()": lambda a, b: int(a < b)}
+                    for nm, role in roles(atom):
+                        env[nm] = ck if role == "node" else k
                     stop = bool(evalx(fn, atom, env)) == pol
                     if stop != (ck >= k):
                         bad = "search stops at node %d for key %d: %s" % (ck, k, stop)
                     if stop:
-                        found = bool(evalx(fn, fn.kids(rets[0])[0], env))
+                        ratom, rpol = flow.strip_cond(fn, fn.kids(rets[0])[0])
+                        env2 = {"call:operator()": lambda a, b: int(a < b)}
+                        for nm, role in roles(ratom):
+                            env2[nm] = ck if role == "node" else k
+                        found = bool(evalx(fn, ratom, env2)) == rpol
                         if found != (ck == k):
                             bad = "node %d reported as %s for key %d" % (ck, "match" if found else "no match", k)
         except Unknown as e:
@@ -92,7 +119,11 @@ def _is_mark_cas(fn, nid):
     if not a or a["kind"] != "cas" or not a["field"].endswith("node::next"):
         return False
     kids = fn.kids(nid)
-    return len(kids) >= 3 and re.search(r"marked_ptr\{.*\.get\(\), 1\}", fn.expr(kids[2])) is not None
+    if len(kids) < 3:
+        return False
+    d = fn.nodes[kids[2]]
+    dk = fn.kids(kids[2])
+    return d["k"] == "construct" and d.get("callee", "").endswith("marked_ptr::marked_ptr") and len(dk) == 2 and fn.nodes[dk[1]].get("v") == 1
 
 
 def _is_unlink_cas(fn, nid):
@@ -153,7 +184,7 @@ def erase_protocol(ctx):
                               "erase reports failure although the key may be present", fn.where(r), fn=fn)
             else:
                 # erase(iterator): successor is guarded before the unlink
-                gs = [e for e in flow.find(fn, {"k": "decl"}) if "next_guard" in fn.expr(e)]
+                gs = [e for e in flow.find(fn, {"k": "decl"}) if any("guard_ptr" in v.get("t", "") and "init" in v and flow.has_src(fn, v["init"], "load:next") for v in fn.nodes[e]["vars"])]
                 ok = bool(gs) and all(any(fn.before(g, u) for g in gs) for u in unlinks)
                 ctx.check(ok, rid, inst + "#guard-successor<unlink", "successor guarded before the unlink CAS",
                           "erase(iterator) must take a guard on the successor before unlinking the current node", fn.where(unlinks[0]), fn=fn)
@@ -233,12 +264,14 @@ def insert_protocol(ctx):
                 continue
             if pat.endswith("::erase") and any(p["name"] == "pos" for p in fn.params):
                 continue
-            decls = [e for e in flow.find(fn, {"k": "decl"}) if re.match(r"^bucket = ", fn.expr(e))]
-            ok = bool(decls) and all(re.search(r"\(h, num_buckets\)$", fn.expr(d)) for d in decls)
-            hd = [e for e in flow.find(fn, {"k": "decl"}) if re.match(r"^h = ", fn.expr(e))]
-            ok = ok and bool(hd) and all(re.search(r"\(key\)$|get_hash\(\)$", fn.expr(d)) for d in hd)
+            # the call map_to_bucket{}(h, num_buckets): a binary functor call whose second argument is the static member num_buckets
+            sel = [e for b_, i_, e, n_ in fn.events() if n_["k"] == "call" and n_.get("callee", "").endswith("operator()") and len(fn.kids(e)) == 3
+                   and fn.nodes[fn.kids(e)[2]].get("name", "").endswith("num_buckets")]
+            decls = sel
+            hd = sel
+            ok = bool(sel) and all(flow.has_src(fn, fn.kids(e)[1], "param#0") or flow.has_src(fn, fn.kids(e)[1], "call:get_hash") for e in sel)
             ctx.check(ok, rid2, pat + "#bucket=map_to_bucket(hash(key))", "bucket = map_to_bucket{}(hash(key), num_buckets)",
-                      "bucket selection differs from the other operations: %s" % "; ".join(fn.expr(d) for d in decls + hd), fn.where(), fn=fn)
+                      "bucket selection differs from the other operations: %s" % "; ".join(fn.expr(d) for d in decls), fn.where(), fn=fn)
 
 
 def _key_is_live(fn, key_nid, use_nid):
@@ -410,8 +443,17 @@ def iterator_rules(ctx):
                 keyargs = [x for x in kn if fn.nodes[x]["k"] == "ref" and fn.nodes[x].get("name") == "key"]
                 ok = bool(keyargs) and not fn.nodes[keyargs[0]].get("t", "").endswith("&") if keyargs else False
                 # declared as a value copy, not a reference
-                kd = [e for e in flow.find(fn, {"k": "decl"}) if any(v["name"] == "key" for v in fn.nodes[e]["vars"])]
-                is_copy = bool(kd) and all(not v["t"].endswith("&") for e in kd for v in fn.nodes[e]["vars"] if v["name"] == "key")
+                # the key argument handed to find(): a local (copy) initialised from the current node's key, not a reference into the node
+                keyargs = [x for x in kn[1:] if fn.nodes[x]["k"] == "ref" and fn.nodes[x].get("dk") == "local" and (flow.has_src(fn, x, "field:value") or flow.has_src(fn, x, "field:key"))
+                           and not flow.has_src(fn, x, "call:get_hash")]
+                is_copy = False
+                for x in keyargs:
+                    nm = fn.nodes[x]["name"]
+                    kd = [v for e in flow.find(fn, {"k": "decl"}) for v in fn.nodes[e]["vars"] if v["name"] == nm]
+                    is_copy = bool(kd) and all(not v["t"].endswith("&") for v in kd)
+                if not keyargs:
+                    # the key is passed as an expression reading the node directly
+                    is_copy = False
                 ctx.check(is_copy, rid, inst + "#key-copied-before-find", "key is copied into a local before find() replaces the guards",
                           "find() is called with a reference into the node that info.cur guards; find() resets that guard, so the key dangles", fn.where(f_), fn=fn)
             mnb = flow.find(fn, call("move_to_next_bucket"))
@@ -445,7 +487,7 @@ def find_protocol(ctx):
             aie = flow.find(fn, call("acquire_if_equal"))
             ctx.check(bool(aie), rid, inst + "#acquire_if_equal", "cur acquired with acquire_if_equal", "find() does not use acquire_if_equal for the current node", fn.where(), fn=fn)
             # comparison of the key (greater_or_equal / compare) only after re-validating prev == cur
-            cmps = flow.find(fn, {"k": "call", "callee_re": r"greater_or_equal$"}) or [e for e in flow.find(fn, {"k": "call"}) if "compare(" in fn.expr(e) and fn.nodes[e].get("callee", "").endswith("operator()")]
+            cmps = flow.find(fn, {"k": "call", "callee_re": r"greater_or_equal$"}) or [e for e in flow.find(fn, {"k": "call"}) if fn.nodes[e].get("callee", "").endswith("operator()") and len(fn.kids(e)) == 3 and fn.nodes[e].get("t") == "bool"]
             reval = lambda f, nid: f.nodes[nid]["k"] in ("bin", "call") and ("!=" in f.expr(nid) or "==" in f.expr(nid)) and "prev" in f.expr(nid) and "cur" in f.expr(nid)
             for c in cmps[:1]:
                 ok, path, n = flow.only_via(fn, c, reval, False)
